@@ -390,7 +390,20 @@ class ModuleLoader:
                     f.wrapped = target
                 return f
             return VBuiltin("wraps-inner", inner)
-        return {"wraps": VBuiltin("wraps", wraps)}
+        def memo(interp, args, kw):
+            """lru_cache / cache: the decorated function is loadable, but a call is out of reach (its result may be an object
+            shared with earlier calls -- the heap model has no memo tables)"""
+            def deco(interp, a, k):
+                f = a[0]
+                nm = getattr(f, "qualname", "?")
+
+                def call(interp, a2, k2):
+                    raise OutOfReach(f"call of the memoised function {nm}")
+                return VBuiltin("memoised:" + nm, call)
+            if len(args) == 1 and isinstance(args[0], FuncModel) and not kw:
+                return deco(interp, args, kw)
+            return VBuiltin("lru_cache-inner", deco)
+        return {"wraps": VBuiltin("wraps", wraps), "lru_cache": VBuiltin("lru_cache", memo), "cache": VBuiltin("cache", memo)}
 
     def m_io(self, interp):
         def bytesio(interp, args, kw):
